@@ -35,7 +35,8 @@ RULE = ("hist cases: seed -> tree (<= 8 nodes, random shape, bonds/open dims fro
         "either operand / fresh), split_node_qr / _svd(untruncated) / _replace with a random leg partition, "
         "parent or root on either side, identifier default / reuse / fresh, insert_identity, "
         "change_node_identifier, replace_tensor with a permutation, legs_before_combination + contract + "
-        "split back, plain accesses, and a malformed stream. nodeseq cases: random Node method sequences. "
+        "split back, plain accesses, and a malformed stream (splits / contractions that would create a bond > 24 "
+        "or an array > 40000 entries are not drawn). nodeseq cases: random Node method sequences. "
         "non-trivial = history with >= 3 different operation kinds in which some operand had a pending "
         "(non-identity) leg permutation or an identifier was reused; nodeseq with >= 3 different methods")
 PARTIAL = [
@@ -60,6 +61,8 @@ ASSUMPTIONS = ["copy.deepcopy of a TreeTensorNetwork is value-equal and alias-fr
                "identifiers are strings without the need of escaping; uuid1 identifiers are unique"]
 
 MAX_NODES = 8
+MAX_BOND = 24          # generation-time caps that keep the dense reference affordable in long histories
+MAX_SIZE = 40000
 
 
 # ===================================================================== expected state (documented rules)
@@ -424,9 +427,24 @@ def gen_split(w: World, rng: random.Random, x: str, how: Optional[str] = None) -
     others = set(exp.nodes) - {x}
     if out_id in others or in_id in others or out_id == in_id:
         return None
+    # keep arrays small: long histories must not blow up bond dimensions (generation-time only)
+    repl = rng.choice(["ia", "ib", "qr"])
+    shape = list(w.ttn.nodes[w.rid(x)].shape)
+    par = X["parent"]
+    off = 0 if par is None else 1
+    chs = X["children"]
+    rows = int(np.prod(([shape[0]] if (par is not None and keep == "out") else []) +
+                       [shape[off + chs.index(c)] for c in out_ch] + [shape[l] for l in out_open], dtype=int))
+    cols = int(np.prod(([shape[0]] if (par is not None and keep == "in") else []) +
+                       [shape[off + chs.index(c)] for c in in_ch] + [shape[l] for l in in_open], dtype=int))
+    if how == "replace" and {"ia": rows, "ib": cols, "qr": min(rows, cols)}[repl] > MAX_BOND:
+        repl = "qr"
+    bond_dim = {"ia": rows, "ib": cols, "qr": min(rows, cols)}[repl] if how == "replace" else min(rows, cols)
+    if bond_dim > MAX_BOND or rows * bond_dim > MAX_SIZE or cols * bond_dim > MAX_SIZE:
+        return None
     return {"op": "split", "how": how, "id": x, "out_ch": out_ch, "in_ch": in_ch, "out_open": out_open,
             "in_open": in_open, "keep": keep, "out_mode": om, "in_mode": im, "out_id": out_id, "in_id": in_id,
-            "pass_node": rng.random() < 0.4, "repl": rng.choice(["ia", "ib", "qr"])}
+            "pass_node": rng.random() < 0.4, "repl": repl}
 
 
 def gen_contract(w: World, rng: random.Random) -> Optional[Dict[str, Any]]:
@@ -439,6 +457,11 @@ def gen_contract(w: World, rng: random.Random) -> Optional[Dict[str, Any]]:
     mode = rng.choice(["default", "a", "b", "fresh"])
     new = {"default": default_contract_id(a, b), "a": a, "b": b}.get(mode) or fresh_name(w, rng)
     if new in set(exp.nodes) - {a, b}:
+        return None
+    sa = list(w.ttn.nodes[w.rid(p)].shape)
+    sb = list(w.ttn.nodes[w.rid(c)].shape)
+    d = sb[0] if sb else 1
+    if int(np.prod(sa, dtype=int)) * int(np.prod(sb, dtype=int)) // max(d * d, 1) > MAX_SIZE:
         return None
     return {"op": "contract", "a": a, "b": b, "mode": mode, "new": new}
 
@@ -1349,13 +1372,13 @@ def run_case(ctx, case, model_out=None):
 def gen_cases(ctx) -> List[Dict[str, Any]]:
     rng = ctx.rng
     cases = []
-    nh = ctx.n(1200, 1500)
+    nh = ctx.n(1200, 4000)
     maxops = 30 if ctx.tier == "quick" else 200
     for _ in range(nh):
         n = rng.choice([1, 2, 3, 3, 4, 4, 5, 5, 6, 6, 7, 8])
         nops = rng.choice([maxops, maxops, rng.randint(3, maxops)])
         cases.append({"kind": "hist", "seed": rng.randrange(10 ** 9), "n": n, "nops": nops})
-    for _ in range(ctx.n(3000, 10000)):
+    for _ in range(ctx.n(3000, 20000)):
         cases.append({"kind": "nodeseq", "seed": rng.randrange(10 ** 9), "nops": rng.randint(2, 25)})
     return cases
 
@@ -1384,16 +1407,22 @@ def run(ctx):
     for (case, toks, lines, probs), out in zip(pending, outs):
         compare_nodeseq(ctx, case, toks, lines, probs, out)
     pend = []
+
+    def flush():
+        if pend:
+            outs = ctx.lean.batch(["C02 hist " + " ".join(i["toks"]) for _, _, i in pend])
+            for (c, d, i), out in zip(pend, outs):
+                compare_hist(ctx, c, d, i, out)
+            pend.clear()
     for case in cases:
         if ctx.time_left() < 0:
             break
         if case.get("kind", "hist") == "hist":
-            run_case(ctx, case, model_out=lambda c, d, i: pend.append((c, d, i)))
-    for k in range(0, len(pend), 200):
-        chunk = pend[k:k + 200]
-        outs = ctx.lean.batch(["C02 hist " + " ".join(i["toks"]) for _, _, i in chunk])
-        for (c, d, i), out in zip(chunk, outs):
-            compare_hist(ctx, c, d, i, out)
+            run_case(ctx, case, model_out=lambda c, d, i: pend.append(
+                (c, d, {"toks": i["toks"], "lines": i["lines"], "opidx": i["opidx"]})))
+            if len(pend) >= 100:
+                flush()
+    flush()
 
 
 def shrink(case):
